@@ -1,0 +1,15 @@
+//go:build verif
+
+package eventlogger
+
+// VerifHook, when set, is called at every instrumented point with the point's
+// name and the values that identify the step. It is only compiled in with the
+// "verif" build tag and is used by external verification harnesses to record
+// and steer executions.
+var VerifHook func(point string, args ...interface{})
+
+func verifPoint(point string, args ...interface{}) {
+	if h := VerifHook; h != nil {
+		h(point, args...)
+	}
+}
